@@ -36,14 +36,14 @@ RULE = (
 STATE_MEASURE = "distinct (configuration, slot-prior-state x op kind x outcome) combinations reached, as counted by the harness"
 COMPONENTS = {
     "real": ["nunavut CLI and the C / C++ templates and support headers under test", "clang 14 -O1 with AddressSanitizer, UndefinedBehaviorSanitizer, LeakSanitizer", "libstdc++ (std::vector, std::variant, std::pmr)", "pydsdl.serialize as valid-encoding generator"],
-    "stub": ["memory as seen by the generated code: exactly-sized heap buffers, poisoned / reused / corrupted destination objects", "the op script (scheduler-written call history)", "transport faults on buffers"],
+    "stub": ["memory as seen by the generated code: exactly-sized heap buffers, poisoned / reused / corrupted destination objects", "the op script (scheduler-written call history)", "transport faults on buffers", "bounded heap while a C++ decode runs (sanitizer allocation hook: no single allocation above 64 x extent + 64 KiB of the type being decoded)"],
 }  # fmt: skip
 ASSUMPTIONS = [
     "a C object whose last decode failed or that was poisoned is indeterminate and is never serialised before it is decoded into or initialised; a C++ object is always live and must stay destructible, copyable and serialisable-or-error",
     "that an undersized buffer must be refused is C05's clause (not claimed) and is legitimately relaxed by the capacity override; here SER only must stay inside [buf, buf+cap) and report size <= cap",
     "type sets that fail to generate or compile are skipped and counted (that is C06's subject)",
     "cetl++14-17 cannot be built offline (empty CETL submodule): generated but not run",
-    "allocator faults are outside the property's quantifier; not injected",
+    "allocator faults are outside the property's quantifier; not injected - but an allocation sized by an unvalidated wire length (far above anything the type can hold) is reported: on a bounded heap it ends in std::bad_alloc, which is not a documented error code",
 ]
 
 CONFIGS = [
@@ -91,10 +91,24 @@ DIRECTED_DSDL = {
 }
 
 
+# arrays whose length prefix is 16 and 32 bits wide (the wire can announce 65535 / 4294967295 elements)
+DIRECTED_BIG_DSDL = {
+    "roots": ["big"],
+    "files": {
+        "big/Wide.1.0.dsdl": "uint64[<=300] wide\nuint8 tail\n@sealed\n",
+        "big/Blob.1.0.dsdl": "uint8 head\nuint8[<=70000] blob\n@sealed\n",
+        "big/Nest.1.0.dsdl": "big.Wide.1.0[<=2] ws\nfloat32[<=260] fs\n@extent 8000 * 8\n",
+    },
+}
+
+
 def directed_cases(seed: int, tier: str) -> typing.List[dict]:
     out = []
     for cfg in CONFIGS if tier == "quick" else CONFIGS_THOROUGH:
         out.append({"label": "directed-%s" % cfg["name"], "dsdl": DIRECTED_DSDL, "config": cfg, "ops_seed": [seed, PROP, "directed", cfg["name"]]})
+    for cfg in CONFIGS if tier == "quick" else CONFIGS_THOROUGH:
+        if cfg["name"] in ("c", "cpp-c++14", "cpp-c++17", "cpp-c++17-pmr") or tier != "quick":
+            out.append({"label": "directed-big-%s" % cfg["name"], "dsdl": DIRECTED_BIG_DSDL, "config": cfg, "ops_seed": [seed, PROP, "directed-big", cfg["name"]], "n_ops": 300})
     return out
 
 
@@ -308,6 +322,8 @@ def rand_value(r: Rng, t: typing.Any, depth: int = 0) -> typing.Any:
         return [rand_value(r, t.element_type, depth + 1) for _ in range(t.capacity)]
     if isinstance(t, pydsdl.VariableLengthArrayType):
         n = r.weighted([(0, 2), (t.capacity, 3), (r.below(t.capacity + 1), 4)])
+        if t.capacity > 1000:
+            n = min(n, r.choice([0, 3, 64, 300]))  # (the valid-encoding generator is pure Python: keep huge arrays short)
         return [rand_value(r, t.element_type, depth + 1) for _ in range(n)]
     if isinstance(t, pydsdl.DelimitedType):
         return rand_value(r, t.inner_type, depth)
